@@ -116,6 +116,28 @@ CLAIMS = {
              "KNOWN FINDING (listed in known-findings.txt, 2 obligations): unnamed bit-fields raise alignment / take a whole unit.  The copying "
              "code emitted by gen() for by-value aggregates, _Alignas and packed layouts are outside.",
         technique=TECH + "; oracle cross-checked against gcc natively"),
+    "C11": dict(
+        level="model_checking", design="DESIGN.md section 3, C11 and section 8",
+        text="Bounded model checking of the TOKEN LAYER of binary MIR (built with the repo's MIR_NO_BIN_COMPRESSION so put_byte/get_byte go to harness "
+             "callbacks; the compression layer is C12): every token writer against its reader (int, uint, float, double, long double, type, label, "
+             "string tag) for ALL 64-bit values / bit patterns with exact byte consumption; write_op against read_operand for all 10 operand kinds "
+             "including fully symbolic memory operands; the real write_item into the real MIR_read_with_func for data items of every element type and "
+             "for lref items.",
+        note="NOT decided: determinism of two whole-module writes, whole-module identity, string-table construction over many strings, the reader's "
+             "func/proto/import/export/forward/bss/ref/expr item branches.  State constructed directly (io_ctx, string tables, one function with two "
+             "registers); 64-byte stream; data elements: integer/p concrete value sets, f/d/ld symbolic.",
+        technique=TECH),
+    "C10": dict(
+        level="model_checking", design="DESIGN.md section 3, C10 and section 8",
+        text="Bounded model checking of fragments of the textual writer/scanner: (1) the real MIR_output_item/_insn/_op terminates memory-safely and "
+             "reads only the union members its item kind has, on one directly constructed item per kind (import, export, forward, proto with blk/rblk, "
+             "func with each operand form incl. alias annotations, data of every element type, bss, ref, lref, expr) with symbolic payloads; "
+             "(2) string escapes: MIR_output_str into the real scanner's string reader for ALL byte strings of length <= 2 (quick) / 3 (thorough).",
+        note="NOT decided: integer and floating-point immediates (formatting/parsing is libc's: %.*e, strtod - no CBMC model), whole-module text "
+             "identity and execution identity after re-scan, re-scanning of names/labels/memory-operand syntax.  fprintf is a harness stub (literal "
+             "text, %s, %c, %03o exact; numeric conversions a placeholder); ASCII/C locale.  KNOWN FINDING (known-findings.txt): a string whose last "
+             "byte is not NUL gains a trailing NUL on the round trip (str.any.*); strings ending in NUL round-trip exactly (str.nulterm.*).",
+        technique=TECH),
 }
 
 NOT_APPLICABLE = {
